@@ -144,7 +144,7 @@ def _adapters(rng, unit, src_static, p=0.45):
     return ads
 
 
-def _gen_net(rng, mode):
+def _gen_net(rng, mode, allow_diverging=False):
     unit = rng.choice([1, 1, 1000, HOUR, DAY, DAY])
     t0 = rng.choice([0, 0, DAY, 5])
     dimL = rng.choice(["m", "mm", "km"])
@@ -159,15 +159,15 @@ def _gen_net(rng, mode):
         prods.append({"steps": _steps(rng, unit), "outs": outs})
     stats = []
     if rng.random() < 0.5:
-        outs = []
-        for oi in range(rng.choice([1, 2])):
+        for si in range(rng.choice([1, 2])):
             u = rng.choice(["", "", "m", "km"])
-            outs.append({"unit": u, "v": _dy(rng)})
-            srcs["1" if u == "" else "L"].append((["s", 0, oi], True))
-        stats.append({"outs": outs})
+            stats.append({"outs": [{"unit": u, "v": _dy(rng)}]})
+            srcs["1" if u == "" else "L"].append((["s", si, 0], True))
 
-    def edge(dim=None, prefer=None):
+    def edge(dim=None, prefer=None, nostatic=False):
         pool = (srcs["L"] + srcs["1"]) if dim is None else srcs[dim]
+        if nostatic:
+            pool = [x for x in pool if not x[1]]
         if prefer:
             pp = [x for x in pool if x[0][0] == "w" and x[0][1] in prefer]
             if pp and rng.random() < 0.8:
@@ -185,10 +185,11 @@ def _gen_net(rng, mode):
                 srcs[dd].extend(nn)
         prefer = list(range(nl1)) if wi >= nl1 else None
         if rng.random() < 0.6:
-            dim = "L" if (srcs["L"] and rng.random() < 0.8) else "1"
+            dim = "L" if (any(not x[1] for x in srcs["L"]) and rng.random() < 0.8) else "1"
             ins = []
             for _ in range(rng.choice([1, 2, 2, 3])):
-                ins.append(edge(dim, prefer))
+                # (a static value input would leave the merger's output info without a time: outside the domain)
+                ins.append(edge(dim, prefer, nostatic=True))
                 ins.append(edge("1", prefer if rng.random() < 0.3 else None))
             pulls.append({"type": "ws", "ins": ins})
             new = [(["w", wi, 0], False)]
@@ -215,11 +216,13 @@ def _gen_net(rng, mode):
                 e = edge()
                 ins.append({"edge": e, "static": False})
             else:
-                oi = rng.randrange(len(stats[0]["outs"]))
-                ins.append({"edge": {"src": ["s", 0, oi], "ad": _adapters(rng, unit, True, 0.3)}, "static": rng.random() < 0.7})
+                si = rng.randrange(len(stats))
+                ins.append({"edge": {"src": ["s", si, 0], "ad": _adapters(rng, unit, True, 0.3)}, "static": rng.random() < 0.7})
         cons.append({"steps": _steps(rng, unit), "ins": ins, "pull_at_connect": rng.random() < 0.6})
     case = {"kind": "net", "mode": mode, "t0": t0, "prods": prods, "stats": stats, "pulls": pulls, "cons": cons}
     if mode == "run":
+        if not allow_diverging:
+            _make_converging(case)
         st = cons[0]["steps"]
         nupd = rng.randint(4, 10)
         case["end"] = t0 + sum(st[i % len(st)] for i in range(nupd)) + rng.choice([0, 0, 1, -1])
@@ -253,6 +256,51 @@ def _gen_net(rng, mode):
                 last = max(last, min(t, hi)) if t >= t0 else last
                 script.append(["pull", c, i, t])
         case["script"] = script
+    return case
+
+
+def _request_signatures(case):
+    """for every pull-based component: the set of (consumer step stream, delays on the way) under which
+    it is asked for data.  More than one element = it is read at diverging times (known finding F16)."""
+    sigs = {wi: set() for wi in range(len(case["pulls"]))}
+
+    def visit(edge, who, sig):
+        if edge["src"][0] != "w":
+            return
+        sig = sig + tuple(a[1] for a in edge["ad"] if a[0] == "delay")
+        wi = edge["src"][1]
+        sigs[wi].add((who, sig))
+        for e in case["pulls"][wi]["ins"]:
+            visit(e, who, sig)
+
+    for c in case["cons"]:
+        for x in c["ins"]:
+            if not x["static"]:
+                visit(x["edge"], tuple(c["steps"]), ())
+    return sigs
+
+
+def _diverging(case):
+    return any(len(v) > 1 for v in _request_signatures(case).values())
+
+
+def _make_converging(case):
+    """restrict a generated composition to the domain in which every pull-based component sees one
+    sequence of request times: no delay adapters downstream of a pull-based component, equal consumer steps"""
+    if not _diverging(case):
+        return case
+    for c in case["cons"]:
+        for x in c["ins"]:
+            if x["edge"]["src"][0] == "w":
+                x["edge"]["ad"] = [a for a in x["edge"]["ad"] if a[0] != "delay"]
+    for w in case["pulls"]:
+        for e in w["ins"]:
+            if e["src"][0] == "w":
+                e["ad"] = [a for a in e["ad"] if a[0] != "delay"]
+    if _diverging(case):
+        for c in case["cons"][1:]:
+            c["steps"] = list(case["cons"][0]["steps"])
+    assert not _diverging(case)
     return case
 
 
@@ -307,6 +355,14 @@ CORPUS = [
          [{"type": "cb", "outs": [_fj(0)], "ins": [_e(("p", 0, 1))]},
           {"type": "ws", "ins": [_e(("p", 0, 0)), _e(("w", 0, 0))]},
           {"type": "cb", "outs": [_fj(5)], "ins": [_e(("w", 0, 0), ("scale", [3, 1]))]}],
+         [{"steps": [2, 3], "ins": [{"edge": _e(("w", 1, 0)), "static": False}, {"edge": _e(("w", 2, 0), ("scale", [1, 2])), "static": False}],
+           "pull_at_connect": True}],
+         end=30),
+    # the same diamond with a delay on one branch: the shared component is read at diverging times (known finding F16)
+    _net([{"steps": [7], "outs": [_po("m", 1, 1), _po("", 1, Fraction(1, 4))]}],
+         [{"type": "cb", "outs": [_fj(0)], "ins": [_e(("p", 0, 1))]},
+          {"type": "ws", "ins": [_e(("p", 0, 0)), _e(("w", 0, 0))]},
+          {"type": "cb", "outs": [_fj(5)], "ins": [_e(("w", 0, 0), ("scale", [3, 1]))]}],
          [{"steps": [2, 3], "ins": [{"edge": _e(("w", 1, 0)), "static": False}, {"edge": _e(("w", 2, 0), ("delay", 4)), "static": False}],
            "pull_at_connect": True}],
          end=30),
@@ -325,6 +381,51 @@ CORPUS = [
 ]
 
 
+# known finding F16: one pull-based component read by two consumers with different steps
+F16_CASE = _net([{"steps": [7], "outs": [_po("m", 1, 1), _po("", 1, 0)]}],
+                [{"type": "ws", "ins": [_e(("p", 0, 0)), _e(("p", 0, 1))]}],
+                [{"steps": [7], "ins": [{"edge": _e(("w", 0, 0)), "static": False}], "pull_at_connect": False},
+                 {"steps": [2], "ins": [{"edge": _e(("w", 0, 0)), "static": False}], "pull_at_connect": False}],
+                end=14)
+CORPUS.append(F16_CASE)
+
+
+def _nonmonotone_pull_input(obs):
+    """some input of a pull-based component received a request time lower than an earlier one"""
+    last = {}
+    for op in obs.get("ops", []):
+        log = op[5] if op[0] == "fetch" else (op[4] if op[0] == "pull" else [])
+        for x in log or []:
+            if x[0] == 3:
+                k = (x[1], x[2])
+                if k in last and x[3] < last[k]:
+                    return True
+                last[k] = max(last.get(k, x[3]), x[3])
+    return False
+
+
+def _cls_f16(case, obs, failure):
+    if case.get("kind") != "net" or case.get("mode") != "run":
+        return False
+    if not isinstance(failure, str) or "TimeError" not in failure:
+        return False
+    if not _diverging(case):
+        return False
+    # the run died with the first error: it must be a TimeError and the trace must show the mechanism
+    errs = [op for op in obs.get("ops", []) if op[0] == "pull" and (op[3] is None or op[3][0] != "ok")]
+    after = False
+    for op in obs.get("ops", []):
+        if op[0] == "phase":
+            after = True
+        elif after and op[0] == "pull" and (op[3] is None or op[3][0] != "ok"):
+            if op[3] != ["TimeError"]:
+                return False
+    return obs.get("outcome") == "TimeError" and _nonmonotone_pull_input(obs)
+
+
+classifiers = {"shared_pull_component_nonmonotone_requests": _cls_f16}
+
+
 def generate(rng, tier):
     n = 330 if tier == "quick" else 6000
     cases = list(CORPUS)
@@ -337,7 +438,8 @@ def generate(rng, tier):
         elif r in (2, 3, 4):
             cases.append(_gen_net(rng, "script"))
         else:
-            cases.append(_gen_net(rng, "run"))
+            # ~10% of the run-mode compositions may read a pull-based component at diverging times (F16)
+            cases.append(_gen_net(rng, "run", allow_diverging=(i % 77 == 5)))
     return cases
 
 
@@ -523,6 +625,9 @@ class _PullC(fm.Component):
         pass
 
     def _cb(self, oi, time):
+        # like WeightedSum: no data before the component's own connect phase is through
+        if self.status not in (fm.ComponentStatus.CONNECTED, fm.ComponentStatus.VALIDATED):
+            return None
         s = float(_fr(self.spec["outs"][oi]))
         for i in range(len(self.spec["ins"])):
             s += fin.scalar_of(self.inputs[f"I{i}"].pull_data(time))
@@ -756,13 +861,25 @@ def _run_net(case):
         inp.pull_data = pull_data
 
     def wrap_validate(comp, wi):
-        real = comp._validate
+        if case["pulls"][wi]["type"] == "ws":
+            real = comp._validate
 
-        def _validate():
-            rec.ops.append(["valid", wi])
-            return real()
+            def _validate():
+                rec.ops.append(["valid", wi])
+                return real()
 
-        comp._validate = _validate
+            comp._validate = _validate
+        else:
+            real_c = comp._connect
+            done = []
+
+            def _connect(start_time):
+                real_c(start_time)
+                if comp.status == fm.ComponentStatus.CONNECTED and not done:
+                    done.append(1)
+                    rec.ops.append(["valid", wi])   # the harness component starts answering
+
+            comp._connect = _connect
 
     obs = {"ops": rec.ops, "outcome": "ok"}
     try:
@@ -907,8 +1024,9 @@ def coq_case(case, obs):
         elif op[0] == "fetch":
             ops.append(C("OFetch", N(wnode[op[1]]), N(op[2]), Z(op[3])))
         elif op[0] == "valid":
-            if case["pulls"][op[1]]["type"] == "ws":
-                ops.append(C("OValid", N(wnode[op[1]])))
+            for k, v in sorted(nid.items(), key=lambda kv: kv[1]):
+                if k[0] == "w" and k[1] == op[1]:
+                    ops.append(C("OValid", N(v)))
         elif op[0] == "pull":
             ops.append(C("OPull", N(op[1]), Z(op[2])))
     return C("CaseNet", L(cn), L(ce), L(ops))
@@ -949,8 +1067,8 @@ def coq_obs(case, obs):
         elif op[0] == "fetch":
             out.append(P(_coq_res_q(op[4]), _coq_log(op[5])))
         elif op[0] == "valid":
-            if case["pulls"][op[1]]["type"] == "ws":
-                out.append(ok0)
+            w = case["pulls"][op[1]]
+            out.extend([ok0] * (1 if w["type"] == "ws" else len(w["outs"])))
         elif op[0] == "pull":
             out.append(P(_coq_res_q(op[3]), _coq_log(op[4])))
     return C("ObsNet", L(out))
@@ -1212,9 +1330,11 @@ class _Walk:
                     self.reads_through_pull += 1
             if self.fail:
                 return self.fail
+        if self.fail:
+            return self.fail
         if self.case["mode"] == "run" and obs.get("outcome") != "ok":
             return f"Composition.connect/run of a valid composition failed with {obs.get('outcome')}"
-        return self.fail
+        return None
 
     def mark_unknown(self, log):
         for x in log or []:
